@@ -30,17 +30,17 @@ import (
 // recorder and dropped ones through the per-step delta of the trace_send_dropped counter.
 
 type c03Trace struct {
-	ID       string        `json:"id"`
-	Worker   int           `json:"worker"`
-	Keep     bool          `json:"keep"`
-	FirstAt  time.Duration `json:"first_span_at"`
-	SendBy   time.Duration `json:"deadline"`
-	Kind     string        `json:"deadline_kind"` // timeout | root | span-limit
-	HasRoot  bool          `json:"has_root"`
-	Count    int           `json:"span_count"`
-	Decided  bool          `json:"decided"`
-	SetStep  int           `json:"deadline_set_at_step"`
-	spanIDs  map[string]bool
+	ID      string        `json:"id"`
+	Worker  int           `json:"worker"`
+	Keep    bool          `json:"keep"`
+	FirstAt time.Duration `json:"first_span_at"`
+	SendBy  time.Duration `json:"deadline"`
+	Kind    string        `json:"deadline_kind"` // timeout | root | span-limit
+	HasRoot bool          `json:"has_root"`
+	Count   int           `json:"span_count"`
+	Decided bool          `json:"decided"`
+	SetStep int           `json:"deadline_set_at_step"`
+	spanIDs map[string]bool
 }
 
 type c03Model struct {
@@ -88,16 +88,16 @@ func (m *c03Model) span(now time.Duration, step int, s E1Span, worker int, keep 
 }
 
 type c03Witness struct {
-	Config   any           `json:"config"`
-	Mode     string        `json:"mode"`
-	Step     int           `json:"step"`
-	At       string        `json:"virtual_time"`
-	TickAt   string        `json:"tick_at,omitempty"`
-	Trace    *c03Trace     `json:"trace,omitempty"`
-	Due      []*c03Trace   `json:"due_at_this_tick,omitempty"`
-	Decided  []string      `json:"decided_in_this_step,omitempty"`
-	Events   []E1Event     `json:"events_of_this_step,omitempty"`
-	Ops      []E1Op        `json:"ops"`
+	Config  any         `json:"config"`
+	Mode    string      `json:"mode"`
+	Step    int         `json:"step"`
+	At      string      `json:"virtual_time"`
+	TickAt  string      `json:"tick_at,omitempty"`
+	Trace   *c03Trace   `json:"trace,omitempty"`
+	Due     []*c03Trace `json:"due_at_this_tick,omitempty"`
+	Decided []string    `json:"decided_in_this_step,omitempty"`
+	Events  []E1Event   `json:"events_of_this_step,omitempty"`
+	Ops     []E1Op      `json:"ops"`
 }
 
 var c03Combos = []struct {
@@ -150,7 +150,7 @@ func TestVerif_C03(t *testing.T) {
 	run.Assume("decision instant = virtual time of the E1 step in which the trace's buffered spans reach the recorder (dry-run / keep-everything) or the trace_send_dropped counter moves (keep/drop histories, MaxExpiredTraces unlimited there)")
 	run.Assume("trace-to-worker assignment is read from the collector (getWorkerIDForTrace); equal-deadline order inside one tick is unspecified and any order is accepted")
 
-	run.Cases("timing", run.N(240, 8000), func(ci int, rng *verifkit.Rand) {
+	run.Cases("timing", run.N(240, 3000), func(ci int, rng *verifkit.Rand) {
 		cb := c03Combos[rng.Intn(len(c03Combos))]
 		mode := verifkit.Pick(rng, "dry", "allkeep", "keepdrop")
 		workers := rng.Range(1, 3)
